@@ -31,7 +31,7 @@ def generate(rng, ctx):
     depth = rng.choice([1, 2, 3] if thorough else [1, 2, 2])
     schema = gen.gen_schema(rng, depth=depth, width=rng.choice([3, 4, 6] if thorough else [3, 4]))
     n = rng.randrange(5, 61 if thorough else 31)
-    env = {"root": "/nonexistent", "cwd": "/nonexistent", "paths": {}}
+    env = gen.GEN_ENV
     ops = history.gen_ops(rng, schema, env, n, bad=rng.choice([0.15, 0.3, 0.45]))
     return {"schema": schema, "ops": ops}
 
